@@ -50,6 +50,8 @@ def cases(tier, seed):
         cs.append(dict(kind='blocks', grid=g, _cost=5))
     for i in range(4 if tier == 'quick' else 40):
         cs.append(dict(kind='logfile', seed=int(rng.integers(0, 2**31)), procs=int(rng.integers(1, 4)), _cost=30))
+    for i in range(4 if tier == 'quick' else 24):
+        cs.append(dict(kind='bigfile', struct=['Rectilinear', 'Scalar'][i % 2], n=int(rng.integers(24, 80)), gib=float(rng.choice([2.1, 4.2, 2.0001, 8.5])), seed=int(rng.integers(0, 2**31)), _cost=10))
     return cs
 
 
@@ -63,7 +65,19 @@ def rand_field(rng, dtype, shape):
     a = rng.standard_normal(shape)
     if np.issubdtype(dtype, np.complexfloating):
         a = a + 1j * rng.standard_normal(shape)
-    return np.asarray(a, dtype=dtype)
+    a = np.asarray(a, dtype=dtype)
+    # the same values in another memory layout: the file holds the values by index, whatever the layout of the array handed in
+    lay = int(rng.integers(0, 4))
+    if a.ndim >= 2 and lay == 1:
+        a = np.asfortranarray(a)
+    elif a.ndim >= 1 and lay == 2 and a.shape[-1] >= 1:
+        big = np.zeros(a.shape[:-1] + (2 * a.shape[-1],), dtype=a.dtype)
+        big[..., ::2] = a
+        a = big[..., ::2]  # strided view
+    elif a.ndim >= 2 and lay == 3:
+        a = np.ascontiguousarray(np.moveaxis(a, 0, -1))
+        a = np.moveaxis(a, -1, 0)  # permuted-axes view
+    return a
 
 
 def make(case, path, rng):
@@ -284,26 +298,87 @@ def run_blocks(case, r):
 
     grid = case['grid']
     r.key = f'blocks/{grid}'
-    for algo in ('Hybrid', 'ChatGPT'):
+    for algo, order in (('Hybrid', 'C'), ('ChatGPT', 'C'), ('Hybrid', 'F'), ('ChatGPT', 'F')):
         for nProcs in range(1, 65):
             owner = np.zeros(grid, dtype=int)
             try:
                 nb = None
                 for rank in range(nProcs):
-                    b = BlockDecomposition(nProcs, list(grid), algo=algo, gRank=rank)
+                    b = BlockDecomposition(nProcs, list(grid), algo=algo, gRank=rank, order=order)
                     nb = list(b.nBlocks)
                     iLoc, nLoc = b.localBounds
                     sl = tuple(slice(i, i + n) for i, n in zip(iLoc, nLoc))
-                    r.check(all(i >= 0 and n >= 0 and i + n <= g for i, n, g in zip(iLoc, nLoc, grid)), 'block-inside-grid', f'{algo} nProcs={nProcs} grid={grid} rank={rank}: bounds {iLoc} {nLoc}')
+                    r.check(all(i >= 0 and n >= 0 and i + n <= g for i, n, g in zip(iLoc, nLoc, grid)), 'block-inside-grid', f'{algo}/{order} nProcs={nProcs} grid={grid} rank={rank}: bounds {iLoc} {nLoc}')
                     owner[sl] += 1
-                r.check(int(np.prod(nb)) == nProcs, 'blocks-product', f'{algo} nProcs={nProcs} grid={grid}: nBlocks {nb}')
-                r.check(bool(np.all(owner == 1)), 'every-point-owned-once', f'{algo} nProcs={nProcs} grid={grid}: ownership counts min {owner.min()} max {owner.max()}')
+                r.check(int(np.prod(nb)) == nProcs, 'blocks-product', f'{algo}/{order} nProcs={nProcs} grid={grid}: nBlocks {nb}')
+                r.check(bool(np.all(owner == 1)), 'every-point-owned-once', f'{algo}/{order} nProcs={nProcs} grid={grid}: ownership counts min {owner.min()} max {owner.max()}')
             except (IndexError, AssertionError) as e:
                 r.check(False, 'blocks-no-exception', f'{algo} nProcs={nProcs} grid={grid}: {type(e).__name__}: {e}')
             r.count('decompositions')
     r.nontrivial = True
     r.observe('blocks_dim', len(grid))
     r.sample = dict(grid=grid)
+
+
+def run_bigfile(case, r):
+    """record offsets beyond 2 GiB: a sparse file (no disk space needed) holds one real record at the start and one behind
+    the 2 GiB mark; the writer object and a re-opened handle must both address it"""
+    from pySDC.helpers.fieldsIO import FieldsIO, Rectilinear, Scalar
+
+    rng = np.random.default_rng(case['seed'])
+    tmp = tempfile.mkdtemp(prefix='vf_c16_')
+    r.key = f"bigfile/{case['struct']}/{case['n']}"
+    tag = r.key
+    try:
+        path = os.path.join(tmp, 'big.pysdc')
+        FieldsIO.ALLOW_OVERWRITE = False
+        n = case['n']
+        if case['struct'] == 'Scalar':
+            f = Scalar(np.float64, path)
+            f.setHeader(nVar=n * n)
+            shape = (n * n,)
+        else:
+            f = Rectilinear(np.float64, path)
+            f.setHeader(nVar=2, coords=[np.linspace(0, 1, n), np.linspace(0, 1, n)])
+            shape = (2, n, n)
+        f.initialize()
+        u = rng.standard_normal(shape)
+        f.addField(0.5, u)
+        rec, hs = int(f.tSize) + int(f.fSize), int(f.hSize)
+        nrec = int(case['gib'] * 2**30 // rec) + 1
+        try:
+            with open(path, 'r+b') as fh:
+                fh.truncate(hs + nrec * rec)
+            if os.stat(path).st_blocks * 512 > 64 * 2**20:
+                raise OSError('file system does not keep the file sparse')
+        except OSError as e:
+            r.count('sparse_files_unsupported')
+            r.check(True, 'noop', '')
+            return
+        v = rng.standard_normal(shape)
+        f.addField(1.5, v)
+        for who, h in (('writer object', f), ('re-opened handle', None)):
+            try:
+                h = h or FieldsIO.fromFile(path)
+                r.check(int(h.nFields) == nrec + 1, 'large-file-record-count', f'{tag}: {who} reports {h.nFields} records, the file holds {nrec + 1} ({os.path.getsize(path) / 2**30:.2f} GiB apparent size)')
+                t0_, a = h.readField(0)
+                t1_, b = h.readField(nrec)
+                r.check(t0_ == 0.5 and t1_ == 1.5 and same_bits(np.asarray(a).reshape(shape), u) and same_bits(np.asarray(b).reshape(shape), v), 'large-file-roundtrip', f'{tag}: {who} does not return the records before and behind the 2 GiB mark bit-exactly')
+            except Exception as e:  # noqa
+                r.check(False, 'large-file-roundtrip', f'{tag}: {who} fails on a file of {os.path.getsize(path) / 2**30:.2f} GiB: {type(e).__name__}: {e}')
+        try:
+            g = FieldsIO.fromFile(path)
+            w = rng.standard_normal(shape)
+            g.addField(2.5, w)
+            t2_, c = FieldsIO.fromFile(path).readField(nrec + 1)
+            r.check(t2_ == 2.5 and same_bits(np.asarray(c).reshape(shape), w), 'large-file-roundtrip', f'{tag}: a field appended through a re-opened handle behind the 2 GiB mark is not read back exactly')
+        except Exception as e:  # noqa
+            r.check(False, 'large-file-roundtrip', f'{tag}: appending through a re-opened handle fails on a file of {os.path.getsize(path) / 2**30:.2f} GiB: {type(e).__name__}: {e}')
+        r.count('large_files')
+        r.nontrivial = True
+        r.sample = dict(case={k: v_ for k, v_ in case.items() if not k.startswith('_')}, records=nrec + 2)
+    finally:
+        shutil.rmtree(tmp, ignore_errors=True)
 
 
 def run_logfile(case, r):
@@ -353,7 +428,7 @@ def run_logfile(case, r):
 
 def run_case(case):
     r = Result(case)
-    dict(file=run_file, blocks=run_blocks, logfile=run_logfile)[case['kind']](case, r)
+    dict(file=run_file, blocks=run_blocks, logfile=run_logfile, bigfile=run_bigfile)[case['kind']](case, r)
     r.count('kind:' + case['kind'])
     return r
 
